@@ -270,6 +270,19 @@ def oracle(case):
                 out.append(Disc('tables-differ-from-plain-xml', f'{name}{p}', e, g))
             for p, e, g in diff(a['api'], b['api'])[:5]:
                 out.append(Disc('api-differs-from-plain-xml', f'{name}{p}', e, g))
+    # whatever the route, handing a loaded resource to add_lexical_resource must not modify it
+    if route != 'memory':
+        import wn.lmf
+        env.fresh_db()
+        wn.lexicons()
+        for k, x in enumerate(xmls):
+            res_ = wn.lmf.load(x, progress_handler=None)
+            snap = copy.deepcopy(res_)
+            wn.add_lexical_resource(res_, progress_handler=None)
+            wn.add_lexical_resource(res_, progress_handler=None)
+            if res_ != snap:
+                out.append(Disc('in-memory-resource-modified', f'resource {k}', 'unchanged',
+                                str(diff(snap, res_)[:3])))
     # an extension whose base is not installed is skipped as a whole
     if case.get('orphan_extension'):
         for k, res in enumerate(case['resources']):
